@@ -50,6 +50,18 @@ Definition decode (s : sx) : option case :=
       do remaining <- as_list as_nat remaining;
       do unch <- as_bool unch;
       Some (CFilter q ot ast r rt matched oob all any aret remaining unch)
+  (* kind 3: the same observations, consulted only after the same Filter has
+     matched or applied another result; judged on this result alone *)
+  | SL [SZ 3; SB q; ot; ast; name; cfgs; units; rt; matched; oob; all; any; aret; remaining; unch] =>
+      do ot <- as_list (as_pair as_b as_bool) ot;
+      do ast <- RunC07.dec_fobs ast;
+      do r <- dec_res name cfgs units;
+      do rt <- as_list (as_triple as_b as_b as_bool) rt;
+      do matched <- as_list as_nat matched;
+      do oob <- as_bool oob; do all <- as_bool all; do any <- as_bool any; do aret <- as_bool aret;
+      do remaining <- as_list as_nat remaining;
+      do unch <- as_bool unch;
+      Some (CFilter q ot ast r rt matched oob all any aret remaining unch)
   | SL [SZ 2; SB q; projs; ot; name; cfgs; units; rt; matched; all; any; pvals] =>
       do projs <- as_list as_b projs;
       do ot <- as_list (as_pair as_b as_bool) ot;
